@@ -5,7 +5,7 @@ Writes lean/TxdbusModel/Gen/IntroStd.lean:
   * `introEvents`  - `introspection._intro` (the XML text of the three standard interfaces that
     `generateIntrospectionXML` appends to every exported object) parsed with xml.sax into the list of
     SAX events (start name attrs / end name), attributes in document order.  The model treats this
-    list as data; the theorem `std_events_eq` (Proofs/Intro/Std.lean) shows by evaluation that it is
+    list as data; the table lemma `std_events` (Proofs/Intro/Doc.lean) shows by evaluation that it is
     exactly what `_getXml` emits for three declared interfaces, so an edit of `_intro` re-checks or
     breaks the C15 theorems.
   * `annotationName` - the string literal that `IntrospectionHandler.start_annotation` compares
@@ -13,8 +13,12 @@ Writes lean/TxdbusModel/Gen/IntroStd.lean:
     annotation name inside the format string of `DBusInterface._getXml` (read from the AST of
     interface.py).  The model uses the first in the handler and the second in the generator.
 
-Anything outside that restricted form (no single comparison in start_annotation, no single
-annotation format string) raises TranslatorError.
+  * `readableWords`, `writeableWords`, `emitsTrueWords` - the literal tuples of the `in (...)` tests of
+    `start_property` / `start_annotation`.
+
+Accepted forms of a string: literal, implicit concatenation, f-string, `+`, module-level str constant.
+Anything else (no single comparison in start_annotation, no single annotation format, other membership
+tests) raises TranslatorError.
 """
 import ast
 import os
@@ -61,38 +65,91 @@ def _lit(s):
     return '"%s".toList' % s
 
 
+def _module_str(modname, name):
+    """value of a module-level `str` constant of txdbus.<modname> (for literals hoisted into a constant)"""
+    import importlib
+    mod = importlib.import_module('txdbus.' + modname)
+    v = getattr(mod, name, None)
+    if not isinstance(v, str):
+        raise TranslatorError('%s.%s is not a module-level str constant' % (modname, name))
+    return v
+
+
+def _str_of(node, modname):
+    """a string-valued expression in the restricted forms: literal, module-level constant, f-string /
+    implicit concatenation of those (a formatted value that is not such a constant becomes '%s')"""
+    if isinstance(node, ast.Constant) and isinstance(node.value, str):
+        return node.value
+    if isinstance(node, ast.Name):
+        return _module_str(modname, node.id)
+    if isinstance(node, ast.JoinedStr):
+        out = []
+        for part in node.values:
+            if isinstance(part, ast.Constant):
+                out.append(str(part.value))
+            elif isinstance(part, ast.FormattedValue) and isinstance(part.value, ast.Name):
+                try:
+                    out.append(_module_str(modname, part.value.id))
+                except TranslatorError:
+                    out.append('%s')
+            else:
+                out.append('%s')
+        return ''.join(out)
+    if isinstance(node, ast.BinOp) and isinstance(node.op, ast.Add):
+        return _str_of(node.left, modname) + _str_of(node.right, modname)
+    raise TranslatorError('unsupported string expression %s' % ast.dump(node)[:80])
+
+
+def _func(repo, modname, fname):
+    src = open(os.path.join(repo, 'txdbus', modname + '.py'), encoding='utf-8').read()
+    for node in ast.walk(ast.parse(src)):
+        if isinstance(node, ast.FunctionDef) and node.name == fname:
+            return node
+    raise TranslatorError('%s.py: no function %s' % (modname, fname))
+
+
 def _handler_annotation_name(repo):
-    src = open(os.path.join(repo, 'txdbus', 'introspection.py'), encoding='utf-8').read()
-    tree = ast.parse(src)
     found = []
-    for node in ast.walk(tree):
-        if isinstance(node, ast.FunctionDef) and node.name == 'start_annotation':
-            for sub in ast.walk(node):
-                if (isinstance(sub, ast.Compare) and len(sub.ops) == 1 and isinstance(sub.ops[0], ast.Eq)
-                        and isinstance(sub.comparators[0], ast.Constant)
-                        and isinstance(sub.comparators[0].value, str)):
-                    found.append(sub.comparators[0].value)
+    for sub in ast.walk(_func(repo, 'introspection', 'start_annotation')):
+        if isinstance(sub, ast.Compare) and len(sub.ops) == 1 and isinstance(sub.ops[0], ast.Eq):
+            for side in (sub.comparators[0], sub.left):
+                try:
+                    found.append(_str_of(side, 'introspection'))
+                    break
+                except TranslatorError:
+                    continue
     if len(found) != 1:
-        raise TranslatorError('start_annotation: expected exactly one `== <str literal>` comparison, found %r' % found)
+        raise TranslatorError('start_annotation: expected exactly one `== <string>` comparison, found %r' % found)
     return found[0]
 
 
 def _generator_annotation_name(repo):
-    src = open(os.path.join(repo, 'txdbus', 'interface.py'), encoding='utf-8').read()
-    tree = ast.parse(src)
-    found = []
-    for node in ast.walk(tree):
-        if isinstance(node, ast.FunctionDef) and node.name == '_getXml':
-            for sub in ast.walk(node):
-                if isinstance(sub, ast.Constant) and isinstance(sub.value, str) and '<annotation' in sub.value:
-                    found.append(sub.value)
+    import re
+    found = set()
+    for sub in ast.walk(_func(repo, 'interface', '_getXml')):
+        if isinstance(sub, (ast.Constant, ast.JoinedStr, ast.BinOp)):
+            try:
+                text = _str_of(sub, 'interface')
+            except TranslatorError:
+                continue
+            for m in re.finditer(r'<annotation\s+name="([^"%]+)"\s+value="', text):
+                found.add(m.group(1))
     if len(found) != 1:
-        raise TranslatorError('_getXml: expected exactly one string constant containing <annotation, found %r' % found)
-    text = found[0].strip()
-    pre, post = '<annotation name="', '" value="%s"/>'
-    if not (text.startswith(pre) and text.endswith(post)):
-        raise TranslatorError('_getXml: annotation format string has an unexpected shape: %r' % text)
-    return text[len(pre):-len(post)]
+        raise TranslatorError('_getXml: expected exactly one <annotation name="..." value=...> format, found %r'
+                              % sorted(found))
+    return found.pop()
+
+
+def _membership_tuples(repo, fname):
+    """the tuples of string literals on the right of `in` inside IntrospectionHandler.<fname>, in source order"""
+    out = []
+    f = _func(repo, 'introspection', fname)
+    for sub in ast.walk(f):
+        if (isinstance(sub, ast.Compare) and len(sub.ops) == 1 and isinstance(sub.ops[0], ast.In)
+                and isinstance(sub.comparators[0], (ast.Tuple, ast.List, ast.Set))):
+            elts = sub.comparators[0].elts
+            out.append((sub.lineno, sub.col_offset, [_str_of(e, 'introspection') for e in elts]))
+    return [t for _, _, t in sorted(out)]
 
 
 def emit(repo):
@@ -121,6 +178,22 @@ def emit(repo):
     out.append('')
     out.append('/-- the annotation name inside the format string of `DBusInterface._getXml` -/')
     out.append('def annotationNameGen : List Char := %s' % _lit(_generator_annotation_name(repo)))
+    out.append('')
+    tp = _membership_tuples(repo, 'start_property')
+    if len(tp) != 2:
+        raise TranslatorError('start_property: expected two `x in (<literals>)` tests (readable, writeable), found %r' % tp)
+    ta = _membership_tuples(repo, 'start_annotation')
+    if len(ta) != 1:
+        raise TranslatorError('start_annotation: expected one `x in (<literals>)` test, found %r' % ta)
+    for nm, doc, words in (('readableWords', '`readable = rw.lower() in (...)` of start_property', tp[0]),
+                           ('writeableWords', '`writeable = rw.lower() in (...)` of start_property', tp[1]),
+                           ('emitsTrueWords', '`self.member.emits = str(attrs[\'value\']) in (...)` of start_annotation', ta[0])):
+        out.append('/-- %s -/' % doc)
+        out.append('def %s : List (List Char) := [%s]' % (nm, ', '.join(_lit(w) for w in words)))
+        out.append('')
+    out.append('/-- names of the interfaces described by `_intro`: %s -/' % ', '.join(
+        v for st, name, attrs in ev if st and name == 'interface' for k, v in attrs if k == 'name'))
+    out.append('def introInterfaceCount : Nat := %d' % sum(1 for st, name, _ in ev if st and name == 'interface'))
     out.append('')
     out.append('end Txdbus.Gen.IntroStd')
     return '\n'.join(out) + '\n'
